@@ -409,6 +409,8 @@ impl Hooks for C16 {
             ("insider_path_too_short", vec![Mutation::PopPathNodes(1)]),
             ("insider_path_too_long", vec![Mutation::DuplicateLastPathNode]),
             ("insider_leaf_wrong_parent_hash", vec![Mutation::LeafCorruptParentHash]),
+            ("insider_leaf_parent_hash_empty", vec![Mutation::LeafEditParentHash { keep: 0, append: vec![] }]),
+            ("insider_leaf_parent_hash_prefix", vec![Mutation::LeafEditParentHash { keep: 20, append: vec![] }]),
             ("insider_leaf_keeps_old_key", vec![Mutation::LeafKeepOldHpkeKey]),
             ("insider_leaf_source_update", vec![Mutation::LeafSourceUpdate]),
             ("insider_leaf_signed_by_other_member", vec![Mutation::LeafSignWith(other_sig_key)]),
